@@ -14,4 +14,12 @@ func (r *URLRule) Init()
   trusted
   requires r != nil
   modifies r.id, r.URL.re
+
+// whether a URL rule (methods + URL pattern) matches a request: uninterpreted here
+ufunc ruleMatches(r int, req int) bool
+func (r *URLRule) Match(req *http.Request) (ok bool)
+  trusted
+  pure
+  requires r != nil && req != nil
+  ensures ok == ruleMatches(ref(r), ref(req))
 @*/
